@@ -64,6 +64,8 @@ def make_cases(ctx, rng):
              "seed": int(idx % 5), "est": "feat", "override": True}
         if workers > 1 and idx % 2:
             c["schedule"] = [int(x) + 1 for x in rng.permutation(int(folds))]
+        if idx % 11 == 5:
+            c["refeed_seed"] = int(c["seed"] + 1 + idx % 3)      # trained models re-applied under another seed
         cases.append(c)
         idx += 1
     # larger random datasets, several estimators incl. real learners
@@ -84,6 +86,8 @@ def make_cases(ctx, rng):
              "keyw": 1 + j % 4, "fmt": "parquet" if j % 4 == 1 else "pin", "thr": [1, 4], "train_thr": [1, 2],
              "pred_chunk": int(rng.choice([7, 50, 100, 700000])), "read_chunk": int(rng.choice([13, 64, 200000])),
              "seed": j, "est": ["feat", "memo", "lr", "tree", "svm"][j % 5], "max_iter": 1 + j % 3, "direction": None, "override": True}
+        if j % 5 == 0 and j % 2 == 1:
+            c["refeed_seed"] = j + 17
         if j % 4 == 3:
             rows2 = rows_from_shape(spec_of[: n // 2], rng, id0=1000)
             for r in rows2:
@@ -168,7 +172,9 @@ def corruptions(tr, rng):
             out.append(("heldout_in_train", mod(lambda t: t["fits"][fi]["train"].append(x))))
         others = [i for i, q in enumerate(tr["preds"]) if q["model"] != p["model"] and q["file"] == p["file"]]
         pi = tr["preds"].index(p)
-        if others:
+        if others and not tr["capped"]:
+            # (with a training-size cap the other model's training set need not contain x: moving a single-PSM spectrum to
+            # another fold can then yield a perfectly valid trace, so the control is only built for uncapped runs)
             def move(t):
                 t["preds"][pi]["ids"] = t["preds"][pi]["ids"][1:]
                 t["preds"][pi]["raw"] = t["preds"][pi]["raw"][1:]
